@@ -147,7 +147,7 @@ class Example:
                         globals: dict[str, Any] = {}
                         print("run> pytest", filename)
                         exec(
-                            compile(filename.read_text("utf-8"), filename, "exec"),
+                            compile(filename.read_text("utf-8-sig"), filename, "exec"),
                             globals,
                         )
 
